@@ -221,6 +221,8 @@ fn run_incfn(index: u64, ctx: &mut CaseCtx) -> Verdict {
     let expect: Option<Result<Vec<bool>, ()>> = if bad_at.is_some() {
         // a non-digit inside the requested range cannot be returned as a digit; outside the range nothing is asserted
         if bad_in_range && l0 > 0 { Some(Err(())) } else { None }
+    } else if flen == 0 && f == 0 && (s0 > 0 || l.map(|x| x > 0).unwrap_or(false)) {
+        Some(Err(())) // any non-empty or displaced range of an empty file lies past its end
     } else if flen == 0 || l0 == 0 || s0 >= flen && l.is_none() {
         None // empty file, empty range, start at the end: not asserted
     } else if end.map(|e| e <= flen).unwrap_or(false) {
